@@ -58,33 +58,33 @@ def gen(rng, tier):
     for _ in range(nbase):
         base = rpkt(rng, 0)
         for b1 in range(256):
-            out.append(Case("hdr.sweep_pid %s %d" % (hx(base), b1), kind="sweep-setpid", theorem="C01_set_pid_get"))
+            out.append(Case("hdr.sweep_pid %s %d" % (hx(base), b1), kind="sweep-setpid", theorem="C01_set_pid"))
     for base in [rpkt(rng, 0) for _ in range(2 if not thorough else 8)]:
         for pid in (0, 1, 255, 256, 0x1000, 0x1fff, 0x0aaa, 0x1555):
-            out.append(Case("hdr.sweep_pid_b2 %s %d" % (hx(base), pid), kind="sweep-setpid-b2", theorem="C01_set_pid_frame"))
+            out.append(Case("hdr.sweep_pid_b2 %s %d" % (hx(base), pid), kind="sweep-setpid-b2", theorem="C01_set_pid_any_int"))
     for base in [rpkt(rng, 0) for _ in range(4 if not thorough else 40)]:
         for w in range(3):
-            out.append(Case("hdr.sweep_bit %s %d" % (hx(base), w), kind="sweep-flag", theorem="C01_set_flag_get"))
-        out.append(Case("hdr.sweep_tsc %s" % hx(base), kind="sweep-tsc", theorem="C01_set_tsc_get"))
-        out.append(Case("hdr.sweep_cc %s 0 16" % hx(base), kind="sweep-cc", theorem="C01_set_cc_get"))
+            out.append(Case("hdr.sweep_bit %s %d" % (hx(base), w), kind="sweep-flag", theorem="C01_set_tei"))
+        out.append(Case("hdr.sweep_tsc %s" % hx(base), kind="sweep-tsc", theorem="C01_set_tsc"))
+        out.append(Case("hdr.sweep_cc %s 0 16" % hx(base), kind="sweep-cc", theorem="C01_set_cc"))
         out.append(Case("hdr.sweep_cc %s -40 96" % hx(base), kind="sweep-cc-anyint", theorem="C01_set_cc_any_int"))
         out.append(Case("hdr.sweep_inc %s" % hx(base), kind="sweep-inc-zero", theorem="C01_cc_copy_helpers"))
         out.append(Case("hdr.sweep_cc_fn %s 16" % hx(base), kind="sweep-setcc-copy", theorem="C01_cc_copy_helpers"))
         out.append(Case("hdr.sweep_cc_fn %s 256" % hx(base), kind="fidelity-setcc-copy-u8", decides=False, nontrivial=False))
-        out.append(Case("hdr.sweep_get12 %s" % hx(base), kind="sweep-get-b1b2", theorem="C01_get_exact"))
+        out.append(Case("hdr.sweep_get12 %s" % hx(base), kind="sweep-get-b1b2", theorem="C01_get_exact_pid"))
         out.append(Case("hdr.sweep_get03 %s" % hx(base), kind="sweep-get-b0b3", theorem="C01_check_errors_iff"))
     # ---- individual calls on random packets (all 188 bytes + all getters compared)
     n = 300 if not thorough else 20000
     out.append(Case("hdr.new", kind="new", theorem="C01_new"))
     for _ in range(n):
         p = rpkt(rng)
-        out.append(Case("hdr.get %s" % hx(p), kind="get", theorem="C01_get_exact"))
+        out.append(Case("hdr.get %s" % hx(p), kind="get", theorem="C01_get_exact_pid"))
         out.append(Case("hdr.set_pid %s %d" % (hx(p), rng.choice([0, 1, 8191, 4096, rng.randrange(8192)])), kind="set",
-                        theorem="C01_set_pid_get"))
+                        theorem="C01_set_pid"))
         out.append(Case("hdr.set_%s %s %d" % (rng.choice(["tei", "pusi", "tp"]), hx(p), rng.randrange(2)), kind="set",
-                        theorem="C01_set_flag_get"))
-        out.append(Case("hdr.set_tsc %s %d" % (hx(p), rng.randrange(4)), kind="set", theorem="C01_set_tsc_get"))
-        out.append(Case("hdr.set_cc %s %d" % (hx(p), rng.randrange(16)), kind="set", theorem="C01_set_cc_get"))
+                        theorem="C01_set_tei"))
+        out.append(Case("hdr.set_tsc %s %d" % (hx(p), rng.randrange(4)), kind="set", theorem="C01_set_tsc"))
+        out.append(Case("hdr.set_cc %s %d" % (hx(p), rng.randrange(16)), kind="set", theorem="C01_set_cc"))
         out.append(Case("hdr.inc_cc %s" % hx(p), kind="set", theorem="C01_inc_cc"))
         out.append(Case("hdr.zero_cc %s" % hx(p), kind="set", theorem="C01_zero_cc"))
         out.append(Case("hdr.increment_cc_fn %s" % hx(p), kind="cc-copy", theorem="C01_cc_copy_helpers"))
